@@ -691,6 +691,11 @@ func (s *S3Proxy) PutObject(ctx context.Context, input s3response.PutObjectInput
 	if input.ContentType != nil && *input.ContentType == "" {
 		input.ContentType = nil
 	}
+	if input.ContentType == nil {
+		// without a type the SDK labels a streamed body application/octet-stream;
+		// S3 (and a versitygw endpoint) default to binary/octet-stream
+		input.ContentType = backend.GetPtrFromString(backend.DefaultContentType)
+	}
 	if input.ExpectedBucketOwner != nil && *input.ExpectedBucketOwner == "" {
 		input.ExpectedBucketOwner = nil
 	}
